@@ -30,7 +30,15 @@ func init() {
 		ex.nd = append(ex.nd, ndEntry{Kind: "int", Int: k})
 		return Const(64, uint64(k))
 	}
-	V["vChoose"] = V["vLen"]
+	V["vChoose"] = func(ex *Exec, fn *ssa.Function, args []Value) Value {
+		n := constInt(args[0], "vChoose bound")
+		if n < 1 {
+			n = 1
+		}
+		k := ex.choose(n)
+		ex.nd = append(ex.nd, ndEntry{Kind: "int", Int: k})
+		return Const(64, uint64(k))
+	}
 	V["vRange"] = func(ex *Exec, fn *ssa.Function, args []Value) Value {
 		// non-forking integer in [lo,hi]
 		lo, hi := constInt(args[0], "vRange lo"), constInt(args[1], "vRange hi")
